@@ -11,7 +11,7 @@ import numpy as np  # noqa: E402
 
 PROP = "C12"
 tf = env.tf
-HEADER = ("From Coq Require Import String List Bool.\nFrom QV Require Import Convert.ModelQuantize.\n"
+HEADER = ("From Coq Require Import String List Bool.\nFrom QV Require Import Convert.ModelQuantize Convert.Adaptive.\n"
           "Open Scope string_scope. Import ListNotations.\n")
 QSTR = ["quantized_bits(4,0,1)", "quantized_bits(8,2,1)", "quantized_po2(4)", "ternary()", "binary()"]
 ASTR = ["quantized_relu(4,2)", "quantized_relu(6)", "quantized_tanh(4)", "quantized_bits(8,3,1)"]
@@ -58,6 +58,12 @@ def gen_directed_dict(rng, model, k):
     d["QActivation"] = {"relu": "quantized_relu(4,1)", "tanh": "quantized_tanh(6)"}
   elif k % 4 == 3:
     d["QActivation"] = ""
+  if k % 4 == 0:
+    d["QAdaptiveActivation"] = "quantized_relu(6)"                                   # the only activation entry: the backup applies
+  elif k % 4 == 1:
+    d["QAdaptiveActivation"] = {"relu": "quantized_relu(5)", "tanh": "quantized_bits(7)"}   # both kinds present: the preference decides
+  elif k % 4 == 2:
+    d["QAdaptiveActivation"] = "quantized_bits(8)"
   if k % 2:
     del d["QDense"]["activation_quantizer"]        # fall back to quantize_activation(activation_bits)
     d["QConv2D"]["activation_quantizer"] = ""
@@ -141,6 +147,11 @@ def gen_dict(rng, model):
   for l in model.layers:
     if type(l).__name__ == "Activation" and rng.integers(0, 5) == 0:
       d[l.name] = ASTR[int(rng.integers(0, len(ASTR)))]
+  r2 = rng.integers(0, 4)
+  if r2 == 1:
+    d["QAdaptiveActivation"] = ["quantized_relu(6)", "quantized_bits(8)"][int(rng.integers(0, 2))]
+  elif r2 == 2:
+    d["QAdaptiveActivation"] = {"relu": "quantized_relu(5)", "tanh": "quantized_bits(6)"}
   return d
 
 
@@ -202,12 +213,13 @@ def main():
     d = gen_directed_dict(rng, model, i) if directed else gen_dict(rng, model)
     bits = int(rng.integers(2, 9))
     tw = bool(i % 2) if directed else bool(rng.integers(0, 2))
+    prefer = bool((i // 2) % 2) if directed else bool(rng.integers(0, 3) == 0)
     d0 = copy.deepcopy(d)
     cfg0 = json.loads(model.to_json())
     w0 = [w.copy() for w in model.get_weights()]
-    rep.count((json.dumps(cfg0["config"]["layers"], sort_keys=True)[:2000], json.dumps(d, sort_keys=True), bits, tw))
+    rep.count((json.dumps(cfg0["config"]["layers"], sort_keys=True)[:2000], json.dumps(d, sort_keys=True), bits, tw, prefer))
     try:
-      qmodel = U.model_quantize(model, d, bits, transfer_weights=tw)
+      qmodel = U.model_quantize(model, d, bits, transfer_weights=tw, prefer_qadaptiveactivation=prefer)
     except Exception as e:  # pylint: disable=broad-except
       has_sep = any(type(l).__name__ == "SeparableConv2D" for l in model.layers)
       selected_sep = has_sep and any(("QSeparableConv2D" in d and "kernel_quantizer" in d["QSeparableConv2D"]) or
@@ -244,15 +256,15 @@ def main():
     # non-quantization hyper-parameters untouched
     for a, b in zip(src_layers, q_layers):
       ka = {k: v for k, v in a["config"].items() if k not in ("activation",)}
-      kb = {k: v for k, v in b["config"].items() if k not in ("activation", "kernel_quantizer", "bias_quantizer", "depthwise_quantizer", "average_quantizer")}
+      kb = {k: v for k, v in b["config"].items() if k not in ("activation", "kernel_quantizer", "bias_quantizer", "depthwise_quantizer", "average_quantizer", "total_bits")}
       if ka != kb:
         rep.violation(f"hyperparams-{i}-{a['config']['name']}", f"layer {a['config']['name']}: non-quantization hyper-parameters changed", {"before": ka, "after": kb})
     lits = []
     for a in src_layers:
       cls, name, ub, act, kq, bq = layer_rec(a)
       lits.append(f"(L {cs(cls)} {cs(name)} {vlib.blit(ub)} {copt(act)} None None)")
-    want = [layer_rec(b) for b in q_layers]
-    texts.append(f"map render_layer (convert_model {coq_dict(d)} {cs(str(bits))} [" + "; ".join(lits) + "])")
+    want = [layer_rec(b) + (str(b["config"].get("total_bits", "")),) for b in q_layers]
+    texts.append(f"render_model_full {vlib.blit(prefer)} {coq_dict(d)} {cs(str(bits))} [" + "; ".join(lits) + "]")
     items.append((i, d, bits, want, [a["config"]["name"] for a in src_layers]))
   U.quantized_model_from_json = orig
   # Coq prediction, compared as strings
@@ -271,12 +283,14 @@ def main():
     for (i, d, bits, want, names), blk in zip(items, blocks):
       got = re.findall(r'"((?:[^"]|"")*)"', blk.split(": list")[0])
       got = [g.replace('""', '"') for g in got]
-      exp = ["|".join([w[0], w[1], "<none>" if w[3] is None else w[3], "<none>" if w[4] is None else w[4], "<none>" if w[5] is None else w[5]]) for w in want]
+      exp = ["|".join([w[0], w[1], "<none>" if w[3] is None else w[3], "<none>" if w[4] is None else w[4], "<none>" if w[5] is None else w[5], w[6]]) for w in want]
       if got != exp:
         j = next((k for k, (a, b) in enumerate(zip(got, exp)) if a != b), 0)
         rep.violation(f"conversion-differs-{i}", f"layer {names[j] if j < len(names) else '?'}: model_quantize produced [{exp[j] if j < len(exp) else None}] "
                       f"but the Coq model gives [{got[j] if j < len(got) else None}]", {"dict": d, "activation_bits": bits})
-  rep.note(models_converted=n_models, compared_with_model=len(items))
+  rep.note(models_converted=n_models, compared_with_model=len(items),
+           adaptive_activation_conversions=sum(1 for it in items for w in it[3] if w[0] == "QAdaptiveActivation"),
+           qactivation_conversions=sum(1 for it in items for w in it[3] if w[0] == "QActivation"))
   if items:
     rep.sample({"dictionary": items[0][1], "activation_bits": items[0][2], "converted_layers": items[0][3][:4]})
   # LeakyReLU conversion (known finding under the pinned Keras)
